@@ -52,6 +52,7 @@ TopVerdict(ax, steps, s2, cand, rank) ==
     LET win == Window(ax, steps)
         added == {s2[k] : k \in win \cap DOMAIN s2} IN
     IF Cardinality(added) # ax.sel THEN "AddedNotDistinctCandidates"
+    ELSE IF ~(added \subseteq SeqRange(cand)) THEN "AddedNotCandidates"          \* (total: Rank is only defined on candidates)
     ELSE IF \E c \in added, d \in SeqRange(cand) \ added : Rank(cand, rank, c) < Rank(cand, rank, d)
          THEN "AddedNotTopResidual"
     ELSE "ok"
